@@ -46,6 +46,17 @@ let dispatch (f : string array) : string option =
   | _ -> Extra.dispatch f
 
 let () =
+  if Array.length Sys.argv > 1 && Sys.argv.(1) = "--bfs" then begin
+    (* rvm --bfs <alphabet-file> <depth> <maxstates> <out> <envspec> *)
+    let ic = open_in Sys.argv.(2) in
+    let alpha = ref [] in
+    (try while true do let l = input_line ic in if l <> "" then alpha := l :: !alpha done with End_of_file -> ());
+    let oc = open_out Sys.argv.(5) in
+    let envs = if Array.length Sys.argv > 6 then Sys.argv.(6) else "-" in
+    Memdrv.bfs (Conv.parse_env envs) (List.rev !alpha) (int_of_string Sys.argv.(3)) (int_of_string Sys.argv.(4)) oc envs;
+    close_out oc;
+    exit 0
+  end;
   let ic = open_in Sys.argv.(1) in
   let oc = if Array.length Sys.argv > 2 then open_out Sys.argv.(2) else stdout in
   (try
